@@ -15,7 +15,10 @@ type deadlineCtx struct {
 	timedOut         *bool
 }
 
+//go:norace
 func (c *deadlineCtx) Deadline() (rtime.Time, bool) { return c.deadline, true }
+
+//go:norace
 func (c *deadlineCtx) Err() error {
 	if e := c.Context.Err(); e != nil {
 		if *c.timedOut {
@@ -26,6 +29,7 @@ func (c *deadlineCtx) Err() error {
 	return nil
 }
 
+//go:norace
 func WithDeadline(parent Context, d rtime.Time) (Context, CancelFunc) {
 	if mcrt.W() == nil {
 		return rcontext.WithDeadline(parent, d)
@@ -42,6 +46,7 @@ func WithDeadline(parent Context, d rtime.Time) (Context, CancelFunc) {
 	return c, func() { t.Stop(); cancel() }
 }
 
+//go:norace
 func WithTimeout(parent Context, d rtime.Duration) (Context, CancelFunc) {
 	if mcrt.W() == nil {
 		return rcontext.WithTimeout(parent, d)
